@@ -6,6 +6,7 @@ import (
 	"encoding/binary"
 	"errors"
 	"fmt"
+	"github.com/xelaj/mtproto/internal/mtproto/messages"
 	"io"
 	"math/rand"
 	"net"
@@ -430,7 +431,101 @@ type c08item struct {
 	msgID int64
 }
 
+// c08tcpClose: the client writes several messages and closes the connection at once; the peer is slow and starts to
+// read only later. What was written before the close reaches the peer, followed by end-of-stream (not a reset).
+func c08tcpClose(c *wk.Ctx, idx int, r *rand.Rand) {
+	ln, err := net.Listen("tcp", "127.0.0.1:0")
+	if err != nil {
+		c.Log.Emit(coreInconclusive("listen: " + err.Error()))
+		return
+	}
+	defer ln.Close()
+	sizes := []int{256 << 10, 4, 64 << 10, 1 << 20}[:2+r.Intn(3)]
+	type got struct {
+		frames [][]byte
+		err    error
+	}
+	done := make(chan got, 1)
+	go func() {
+		conn, err := ln.Accept()
+		if err != nil {
+			done <- got{err: err}
+			return
+		}
+		defer conn.Close()
+		time.Sleep(300 * time.Millisecond) // a busy peer: it gets to this connection later
+		var g got
+		ann := make([]byte, 4)
+		if _, err := io.ReadFull(conn, ann); err != nil {
+			done <- got{err: fmt.Errorf("announcement: %v", err)}
+			return
+		}
+		for {
+			var l [4]byte
+			if _, err := io.ReadFull(conn, l[:]); err != nil {
+				g.err = err
+				break
+			}
+			b := make([]byte, binary.LittleEndian.Uint32(l[:]))
+			if _, err := io.ReadFull(conn, b); err != nil {
+				g.err = err
+				break
+			}
+			g.frames = append(g.frames, b)
+		}
+		done <- g
+	}()
+	ctx, cancel := context.WithCancel(context.Background())
+	defer cancel()
+	var tr transport.Transport
+	pan, pm, st := wk.Guard(func() {
+		tr, err = transport.NewTransport(&stubInfo{key: make([]byte, 256)}, transport.TCPConnConfig{Ctx: ctx, Host: ln.Addr().String(), Timeout: 20 * time.Second}, mode.Intermediate)
+	})
+	if pan || err != nil {
+		c.Viol("C08", idx, "tcp/connect", fmt.Sprint(pm, err, st), nil)
+		return
+	}
+	var bodies [][]byte
+	for i, n := range sizes {
+		body := rbytes(r, n)
+		bodies = append(bodies, body)
+		var werr error
+		pan, pm, st = wk.Guard(func() { werr = tr.WriteMsg(&messages.Unencrypted{Msg: body, MsgID: int64(4 * (i + 1))}, false) })
+		if pan || werr != nil {
+			c.Viol("C08", idx, "tcp/write-failed", fmt.Sprint(pm, werr, st), n)
+			return
+		}
+	}
+	wk.Guard(func() { tr.Close() })
+	var g got
+	select {
+	case g = <-done:
+	case <-time.After(30 * time.Second):
+		c.Log.Emit(coreInconclusive("tcp close: the peer did not finish within the watchdog"))
+		return
+	}
+	c.Count("tcp.close_after_write_cases", 1)
+	if len(g.frames) != len(bodies) {
+		c.Viol("C08", idx, "tcp/written-before-close-lost", fmt.Sprintf("%d messages were written (WriteMsg returned nil for each) and the connection closed; the peer, reading 300 ms later, received %d of them and then %v", len(bodies), len(g.frames), g.err), sizes)
+		return
+	}
+	for i := range bodies {
+		if _, b, err := mtp.OpenPlain(g.frames[i]); err != nil || !bytes.Equal(b, bodies[i]) {
+			c.Viol("C08", idx, "tcp/written-before-close-differs", fmt.Sprintf("message %d of %d bytes", i, len(bodies[i])), nil)
+			return
+		}
+	}
+	if g.err != io.EOF {
+		c.Viol("C08", idx, "tcp/close-not-end-of-stream", fmt.Sprintf("after an orderly Close the peer sees %v instead of the end of the stream", g.err), nil)
+	}
+	c.Distinct("tcpclose", len(sizes), idx)
+}
+
 func c08tcpCase(c *wk.Ctx, idx int, r *rand.Rand, k int) {
+	if k%16 == 5 {
+		c08tcpClose(c, idx, r)
+		return
+	}
 	ln, err := net.Listen("tcp", "127.0.0.1:0")
 	if err != nil {
 		c.Log.Emit(coreInconclusive("listen: " + err.Error()))
